@@ -239,7 +239,14 @@ type Peer struct {
 
 	paused  int32 // StopReading
 	closing bool  // Close was called
+
+	// Fragment: piece sizes for SendRaw (nil = one write per send)
+	Fragment []int
 }
+
+// GenFragmentSizes are the piece sizes legs draw from (around the 24-byte frame header and the
+// 80/81-byte block header).
+var GenFragmentSizes = []int{1, 3, 7, 20, 23, 24, 25, 40, 79, 80, 81, 100}
 
 var listenCounter uint32
 
@@ -355,6 +362,32 @@ func (p *Peer) Send(frames ...Frame) error {
 
 func (p *Peer) SendRaw(b []byte) error {
 	p.conn.SetWriteDeadline(time.Now().Add(20 * time.Second))
+	if len(p.Fragment) > 0 {
+		// the first 600 bytes of every send go out in pieces of the given sizes (cyclically) with a
+		// pause after each, the way TCP may segment a message at any byte
+		sent, limit := 0, len(b)
+		if limit > 600 {
+			limit = 600
+		}
+		for i := 0; sent < limit; i++ {
+			n := p.Fragment[i%len(p.Fragment)]
+			if n < 1 {
+				n = 1
+			}
+			if sent+n > limit {
+				n = limit - sent
+			}
+			if _, err := p.conn.Write(b[sent : sent+n]); err != nil {
+				return err
+			}
+			sent += n
+			time.Sleep(300 * time.Microsecond)
+		}
+		b = b[sent:]
+		if len(b) == 0 {
+			return nil
+		}
+	}
 	_, err := p.conn.Write(b)
 	return err
 }
